@@ -224,6 +224,10 @@ type BuiltTx struct {
 	To       *common.Address
 	Oracle   *OracleInfo
 	Authorized *bool // for parameter updates: whether the sender is the rightful authority
+	EthNonce   uint64
+	EthTip     *big.Int
+	EthType    int
+	Creates    *common.Address
 }
 
 func sdkDur(sec int64) time.Duration { return time.Duration(sec) * time.Second }
@@ -246,6 +250,7 @@ func (r *Run) ethCall(ctx sdk.Context, from Account, to common.Address, data []b
 	}
 	bt.Bytes, bt.EthHash, bt.Kind, bt.Sender = bz, h, "eth", from.Addr
 	bt.GasLimit, bt.GasPrice, bt.To = defaultEthGas, feeCap, &to
+	bt.EthType, bt.EthTip, bt.EthNonce, bt.Value = 2, big.NewInt(1), nonce, big.NewInt(0)
 	return nil
 }
 
